@@ -47,13 +47,20 @@ Call(m, o) == /\ Len(calls) < MaxCalls /\ Possible(m, o)
 \* the environment drops the connection after the server has processed the request and before any byte of the response is
 \* on the wire (HTTP: the carrier of a request is its own connection): the request did arrive, so the handler ran - once; the
 \* caller observes a transport error, whatever the outcome was, and nobody sends the request a second time
-Faults == {"none", "drop-after-handler"}
+Faults == {"none", "drop-after-handler", "reply-over-limit"}
 ObservesF(m, o, f) == IF f = "none" THEN Observes(m, o) ELSE "transport-error"
 CallDropped(m, o) == /\ Len(calls) < MaxCalls /\ Possible(m, o)
                      /\ calls' = Append(calls, [m |-> m, o |-> o, fault |-> "drop-after-handler"])
                      /\ handler' = Append(handler, m)                \* still exactly one invocation
                      /\ seen' = Append(seen, "transport-error")
-Next == \E m \in Methods, o \in Outcomes : Call(m, o) \/ CallDropped(m, o)
+\* the caller's transport accepts only replies up to a size the reply exceeds (HTTP: WithResponseSizeLimit, answered 413): the
+\* handler ran once, the caller observes a transport error (RESPONSE_TOO_LARGE), and - like every call - it leaves nothing
+\* behind for the calls that follow
+CallOverLimit(m, o) == /\ Len(calls) < MaxCalls /\ Possible(m, o) /\ ~Oneway(m)
+                       /\ calls' = Append(calls, [m |-> m, o |-> o, fault |-> "reply-over-limit"])
+                       /\ handler' = Append(handler, m)
+                       /\ seen' = Append(seen, "transport-error")
+Next == \E m \in Methods, o \in Outcomes : Call(m, o) \/ CallDropped(m, o) \/ CallOverLimit(m, o)
 Spec == Init /\ [][Next]_vars
 OncePerCall == Len(handler) = Len(calls) /\ \A i \in 1..Len(calls) : handler[i] = calls[i].m
 Faithful == \A i \in 1..Len(calls) : seen[i] = ObservesF(calls[i].m, calls[i].o, calls[i].fault)
